@@ -1,7 +1,167 @@
-import IsoDT.Model.Calendar
-namespace IsoDT.Props.C03
-open IsoDT
+/-
+  C03 — Calendar, ordinal and ISO-week dates are faithful views of one day.
 
-theorem placeholder : (1 : Nat) = 1 := rfl
+  Property theorems only (helper lemmas live in IsoDT/Lemmas).  Everything is stated for every
+  year in `Int` (0, negative, beyond 9999) and all four calendar modes; `Model.*` are the
+  code-shaped functions tied to data.py by the correspondence check, `Spec.*` is the calendar
+  definition, `Gen.*` the tables regenerated from the source on every run.
+-/
+import IsoDT.Lemmas.Conv
+
+namespace IsoDT.Props.C03
+open IsoDT IsoDT.Model IsoDT.Lemmas
+
+/-! ## The regenerated tables are the calendar definition -/
+
+/-- Month lengths per mode and leap flag, as `set_mode` installs them, are the Spec's:
+    twelve 30-day months; 365 days always; 366 days always; Gregorian. -/
+theorem C03_tables (m : Mode) (lp : Bool) : Model.table m lp = Spec.monthTab m lp := table_eq m lp
+
+/-- The leap-year factors and the Monday reference the source declares. -/
+theorem C03_constants :
+    Gen.leapFactors = [(4, true), (100, false), (400, true)] ∧
+    Gen.weekRefCal = (2000, 1, 3) ∧ Gen.weekRefOrd = (2000, 3) ∧
+    ∀ m, (calOf m).daysInWeek = 7 ∧ (calOf m).monthsInYear = 12 :=
+  ⟨gen_leapFactors, gen_weekRefCal, gen_weekRefOrd, fun m => ⟨daysInWeek_eq m, monthsInYear_eq m⟩⟩
+
+/-! ## Queries -/
+
+theorem C03_is_leap_year (y : Int) : isLeapYear y = Spec.isLeapG y := isLeapYear_eq y
+
+theorem C03_days_in_year (m : Mode) (y : Int) : daysInYear m y = Spec.yearLen m y := daysInYear_eq m y
+
+theorem C03_days_in_month (m : Mode) (y mo : Int) (h1 : 1 ≤ mo) (h2 : mo ≤ 12) :
+    daysInMonth m y mo = Spec.monthLen m y mo := daysInMonth_eq m y mo h1 h2
+
+/-- `get_days_in_year_range`, including its `while` loop, is the closed form. -/
+theorem C03_days_in_year_range (m : Mode) (s e : Int) :
+    daysInYearRange m s e = if s ≤ e then Spec.dby m (e + 1) - Spec.dby m s else 0 :=
+  daysInYearRange_eq m s e
+
+/-- The number of days of years `s..e` really is the sum of the year lengths. -/
+theorem C03_year_lengths_add_up (m : Mode) (y : Int) : Spec.dby m (y + 1) = Spec.dby m y + Spec.yearLen m y :=
+  dby_succ m y
+
+theorem C03_week_start (m : Mode) (y : Int) :
+    Spec.ValidCal m (weekStartCal m y).1 (weekStartCal m y).2.1 (weekStartCal m y).2.2 ∧
+    Spec.dayNumCal m (weekStartCal m y).1 (weekStartCal m y).2.1 (weekStartCal m y).2.2 =
+      Spec.weekYearStart m y := weekStartCal_spec m y
+
+theorem C03_weeks_in_year (m : Mode) (y : Int) :
+    weeksInYear m y = Spec.weeksInYear m y ∧ 51 ≤ weeksInYear m y ∧ weeksInYear m y ≤ 53 ∧
+    (m ≠ .d360 → 52 ≤ weeksInYear m y) := by
+  rw [weeksInYear_eq]
+  exact ⟨rfl, (weeksInYear_bounds m y).1, (weeksInYear_bounds m y).2,
+    fun h => weeksInYear_bounds_long m h y⟩
+
+/-! ## The calendar definition itself: Monday = 1, week 1 contains 4 January, continuity -/
+
+theorem C03_monday_anchor (m : Mode) : Spec.weekday m (Spec.dayNumCal m 2000 1 3) = 1 := by
+  rw [dayNumCal_jan]; unfold Spec.weekday Spec.weekRef Spec.dayNumOrd; omega
+
+/-- Weekdays run continuously over all day numbers (through year 0 and below). -/
+theorem C03_weekday_continuous (m : Mode) (n : Int) :
+    Spec.weekday m (n + 1) = Spec.weekday m n % 7 + 1 ∧ 1 ≤ Spec.weekday m n ∧ Spec.weekday m n ≤ 7 :=
+  ⟨weekday_succ m n, weekday_range m n⟩
+
+/-- Week 1 of week-year `wy` is the week (Monday..Sunday) containing 4 January of `wy`. -/
+theorem C03_week_one (m : Mode) (wy : Int) :
+    Spec.weekday m (Spec.weekYearStart m wy) = 1 ∧
+    Spec.weekYearStart m wy ≤ Spec.dayNumOrd m wy 4 ∧ Spec.dayNumOrd m wy 4 < Spec.weekYearStart m wy + 7 := by
+  refine ⟨weekday_weekYearStart m wy, ?_, ?_⟩ <;>
+    (unfold Spec.weekYearStart Spec.weekday; omega)
+
+/-- The day-of-week field of a week date is the weekday of the day it denotes. -/
+theorem C03_week_date_weekday (m : Mode) (wy w d : Int) (h : Spec.ValidWeek m wy w d) :
+    Spec.weekday m (Spec.dayNumWeek m wy w d) = d := by
+  obtain ⟨_, _, h1, h2⟩ := h
+  have := weekday_weekYearStart m wy
+  unfold Spec.dayNumWeek Spec.weekday at *; omega
+
+/-! ## Conversions: total, valid, lossless -/
+
+theorem C03_ordinal_from_calendar (m : Mode) (y mo d : Int) (h : Spec.ValidCal m y mo d) :
+    ∃ doy, ordFromCal m y mo d = some (y, doy) ∧ Spec.ValidOrd m y doy ∧
+      Spec.dayNumOrd m y doy = Spec.dayNumCal m y mo d := ordFromCal_spec m y mo d h
+
+theorem C03_calendar_from_ordinal (m : Mode) (y doy : Int) (h : Spec.ValidOrd m y doy) :
+    ∃ mo d, calFromOrd m y doy = some (y, mo, d) ∧ Spec.ValidCal m y mo d ∧
+      Spec.dayNumCal m y mo d = Spec.dayNumOrd m y doy := calFromOrd_spec m y doy h
+
+theorem C03_calendar_from_week (m : Mode) (y w d : Int) (h : Spec.ValidWeek m y w d) :
+    ∃ cy mo cd, calFromWeek m y w d = some (cy, mo, cd) ∧ Spec.ValidCal m cy mo cd ∧
+      Spec.dayNumCal m cy mo cd = Spec.dayNumWeek m y w d := calFromWeek_spec m y w d h
+
+theorem C03_week_from_calendar (m : Mode) (y mo d : Int) (h : Spec.ValidCal m y mo d) :
+    ∃ wy w wd, weekFromCal m y mo d = some (wy, w, wd) ∧ Spec.ValidWeek m wy w wd ∧
+      Spec.dayNumWeek m wy w wd = Spec.dayNumCal m y mo d := weekFromCal_spec m y mo d h
+
+theorem C03_ordinal_from_week (m : Mode) (y w d : Int) (h : Spec.ValidWeek m y w d) :
+    ∃ oy doy, ordFromWeek m y w d = some (oy, doy) ∧ Spec.ValidOrd m oy doy ∧
+      Spec.dayNumOrd m oy doy = Spec.dayNumWeek m y w d := ordFromWeek_spec m y w d h
+
+theorem C03_week_from_ordinal (m : Mode) (y doy : Int) (h : Spec.ValidOrd m y doy) :
+    ∃ wy w wd, weekFromOrd m y doy = some (wy, w, wd) ∧ Spec.ValidWeek m wy w wd ∧
+      Spec.dayNumWeek m wy w wd = Spec.dayNumOrd m y doy := weekFromOrd_spec m y doy h
+
+/-- All six directions at once: re-expressing a valid date in representation `k` succeeds, gives
+    a valid date of that representation, denoting the same day. -/
+theorem C03_convert (m : Mode) (k : Nat) (hk : k < 3) (dt : Spec.Date) (h : dt.Valid m) :
+    ∃ r, convert m k dt = some r ∧ r.Valid m ∧ r.rep = k ∧ r.dayNum m = dt.dayNum m := by
+  have hk' : k = 0 ∨ k = 1 ∨ k = 2 := by omega
+  rcases hk' with rfl | rfl | rfl <;> cases dt with
+  | cal y mo d =>
+    first
+    | exact ⟨_, rfl, h, rfl, rfl⟩
+    | (obtain ⟨doy, he, hv, hn⟩ := ordFromCal_spec m y mo d h
+       exact ⟨.ord y doy, by simp [convert, he], hv, rfl, hn⟩)
+    | (obtain ⟨wy, w, wd, he, hv, hn⟩ := weekFromCal_spec m y mo d h
+       exact ⟨.week wy w wd, by simp [convert, he], hv, rfl, hn⟩)
+  | ord y doy =>
+    first
+    | exact ⟨_, rfl, h, rfl, rfl⟩
+    | (obtain ⟨mo, d, he, hv, hn⟩ := calFromOrd_spec m y doy h
+       exact ⟨.cal y mo d, by simp [convert, he], hv, rfl, hn⟩)
+    | (obtain ⟨wy, w, wd, he, hv, hn⟩ := weekFromOrd_spec m y doy h
+       exact ⟨.week wy w wd, by simp [convert, he], hv, rfl, hn⟩)
+  | week y w d =>
+    first
+    | exact ⟨_, rfl, h, rfl, rfl⟩
+    | (obtain ⟨cy, mo, cd, he, hv, hn⟩ := calFromWeek_spec m y w d h
+       exact ⟨.cal cy mo cd, by simp [convert, he], hv, rfl, hn⟩)
+    | (obtain ⟨oy, doy, he, hv, hn⟩ := ordFromWeek_spec m y w d h
+       exact ⟨.ord oy doy, by simp [convert, he], hv, rfl, hn⟩)
+
+/-- A valid date is determined by its representation and the day it denotes. -/
+theorem C03_valid_date_unique (m : Mode) (a b : Spec.Date) (ha : a.Valid m) (hb : b.Valid m)
+    (hr : a.rep = b.rep) (hn : a.dayNum m = b.dayNum m) : a = b :=
+  date_unique m a b ha hb hr hn
+
+/-- Mutually inverse: converting to any representation and back returns the original date. -/
+theorem C03_roundtrip (m : Mode) (k : Nat) (hk : k < 3) (dt : Spec.Date) (h : dt.Valid m) :
+    ∃ r, convert m k dt = some r ∧ convert m dt.rep r = some dt := by
+  obtain ⟨r, he, hv, hr, hn⟩ := C03_convert m k hk dt h
+  have hrep : dt.rep < 3 := by cases dt <;> simp [Spec.Date.rep]
+  obtain ⟨r', he', hv', hr', hn'⟩ := C03_convert m dt.rep hrep r hv
+  refine ⟨r, he, ?_⟩
+  rw [he', C03_valid_date_unique m r' dt hv' h hr' (by rw [hn', hn])]
+
+/-- Path independence: going through an intermediate representation changes nothing. -/
+theorem C03_path_independent (m : Mode) (k k' : Nat) (hk : k < 3) (hk' : k' < 3) (dt : Spec.Date)
+    (h : dt.Valid m) :
+    ∃ r, convert m k dt = some r ∧ convert m k' r = convert m k' dt := by
+  obtain ⟨r, he, hv, hr, hn⟩ := C03_convert m k hk dt h
+  obtain ⟨a, hea, hva, hra, hna⟩ := C03_convert m k' hk' r hv
+  obtain ⟨b, heb, hvb, hrb, hnb⟩ := C03_convert m k' hk' dt h
+  refine ⟨r, he, ?_⟩
+  rw [hea, heb, C03_valid_date_unique m a b hva hvb (by rw [hra, hrb]) (by rw [hna, hnb, hn])]
+
+/-! ## Non-vacuity: concrete valid dates at the interesting corners -/
+
+example : Spec.ValidCal .greg 2000 2 29 ∧ Spec.ValidOrd .greg 2004 366 ∧ Spec.ValidWeek .greg 2020 53 7 ∧
+    Spec.ValidWeek .d360 2001 52 7 ∧ Spec.ValidCal .d360 (-1) 2 30 ∧ Spec.ValidOrd .greg 0 366 := by decide
+example : convert .greg 2 (.cal 2021 1 3) = some (.week 2020 53 7) := by decide +kernel
+example : convert .greg 0 (.week 0 1 1) = some (.cal 0 1 3) := by decide +kernel
+example : daysInYearRange .greg (-400) 2000 = 876948 := by decide +kernel
 
 end IsoDT.Props.C03
